@@ -341,6 +341,51 @@ theorem raise_error_dropped_sql_witness (t : Tok) (curr prev : Option Tok) (ctx 
   rw [highlight_single [] t.start t.stop ctx h]
   simp [pySlice]
 
+/-! ### parser-side position merges (BigQuery INFORMATION_SCHEMA.VIEW → one identifier) -/
+
+/-- the merged node's span is [first.start, last.end]; its column is the last part's column -/
+theorem merged_span_is_first_start_last_end (m : Meta) (t1 t2 : Tok) (b : Bool) :
+    (mergeSpan m (updatePositions {} (.token t1)) (updatePositions {} (.token t2)) b).start = some (some t1.start) ∧
+    (mergeSpan m (updatePositions {} (.token t1)) (updatePositions {} (.token t2)) b).stop = some (some t2.stop) ∧
+    (mergeSpan m (updatePositions {} (.token t1)) (updatePositions {} (.token t2)) b).col = some (some t2.col) ∧
+    (mergeSpan m (updatePositions {} (.token t1)) (updatePositions {} (.token t2)) b).line =
+      some (some (if b then t2.line else t1.line)) := by
+  cases b <;> exact ⟨rfl, rfl, rfl, rfl⟩
+
+/-- END TO END: two tokens of a complete run, the first before the second: the merged span contains both lexemes, lies inside the
+    input, and — with the line taken from the last part — its line/col are the reference position of its last character -/
+theorem merged_span_covers_tokens (cfg : Cfg) (sql : Sql) (st : St) (t1 t2 : Tok) (m : Meta)
+    (hC : cleanCfg cfg = true) (hW : WF sql) (h : lex cfg sql = .ok st) (h1 : t1 ∈ st.toks) (h2 : t2 ∈ st.toks)
+    (hord : t1.stop < t2.start) :
+    t1.start ≤ t1.stop ∧ t1.stop < t2.start ∧ t2.start ≤ t2.stop ∧ t2.stop < sql.size ∧
+    (mergeSpan m (updatePositions {} (.token t1)) (updatePositions {} (.token t2)) true).line = some (some (lineOf sql t2.stop)) ∧
+    (∃ c, (mergeSpan m (updatePositions {} (.token t1)) (updatePositions {} (.token t2)) true).col = some (some c) ∧
+      c + crlfAdj sql t2.stop = colOf sql t2.stop) := by
+  have b1 := lex_tokens_inside cfg sql st hW h t1 h1
+  have b2 := lex_tokens_inside cfg sql st hW h t2 h2
+  have hl := lex_line_col_exact cfg sql st hC hW h t2 h2
+  refine ⟨b1.1, hord, b2.1, b2.2, ?_, t2.col, rfl, hl.2⟩
+  show some (some t2.line) = _
+  rw [hl.1]
+
+/-- CLEAN-TREE DEFECT (found in round 7): the merge takes `line` from the FIRST part and `col` from the LAST part, so when the two
+    parts stand on different lines the recorded (line, col) is not the position of any character of the span's end -/
+theorem merged_span_line_witness (m : Meta) (t1 t2 : Tok) (h : t1.line ≠ t2.line) :
+    (mergeSpan m (updatePositions {} (.token t1)) (updatePositions {} (.token t2)) false).line ≠ some (some t2.line) := by
+  intro hc
+  have : t1.line = t2.line := by
+    have := (merged_span_is_first_start_last_end m t1 t2 false).2.2.2
+    rw [this] at hc
+    simpa using hc
+  exact h this
+
+/-- STRUCTURE FACTS (ast): the keyword form of `update_positions` assigns all four position keys unconditionally (no `if v`
+    filter, so an offset of 0 is recorded), and every parser call site that uses the keyword form passes all four keys -/
+theorem update_positions_keyword_form_ok :
+    updatePositionsKeywordBranch = ["meta = self.meta", "meta['line'] = line", "meta['col'] = col", "meta['start'] = start",
+      "meta['end'] = end"] ∧
+    positionMergeSites ≠ [] ∧ positionMergeSites.all (fun s => s.2 == ["col", "end", "line", "start"]) = true := by decide
+
 /-! ### non-vacuity and witnesses (complete evaluations of the model on concrete inputs, `decide +kernel`) -/
 
 /-- the hypotheses of `highlight_selects` are satisfiable and the result is the expected lexeme -/
